@@ -345,7 +345,70 @@ pub struct FailInfo<C> {
     pub reason: String,
 }
 
-/// Run the generated part of a property on `workers` threads.
+fn worker_config(cases: u32, shrink: bool) -> Config {
+    Config {
+        cases,
+        failure_persistence: None,
+        // phase 1 never shrinks (all workers search; a pure function of code and seed);
+        // phase 2 re-runs the lowest failing worker alone with a large shrink budget
+        max_shrink_iters: if shrink { 200_000 } else { 0 },
+        max_shrink_time: if shrink { 25_000 } else { 0 },
+        max_global_rejects: 1024,
+        ..Config::default()
+    }
+}
+
+fn run_worker<P: Prop>(
+    tier: Tier,
+    seed: u64,
+    w: usize,
+    per_worker: u32,
+    shrink: bool,
+    active_kf: &BTreeSet<String>,
+) -> (Stats, Option<(P::Case, String)>) {
+    let rng = TestRng::from_seed(RngAlgorithm::ChaCha, &derive_seed(seed, P::ID, w as u64));
+    let mut runner = TestRunner::new_with_rng(worker_config(per_worker, shrink), rng);
+    let strat = P::strategy(tier);
+    let stats = RefCell::new(Stats::default());
+    let failed = std::cell::Cell::new(false);
+    let res = runner.run(&strat, |case| {
+        let mut ctx = Ctx::new(active_kf);
+        let r = catch(|| P::check(&case, &mut ctx));
+        let verdict: CheckResult = match r {
+            Ok(v) => v,
+            Err(p) => Err(Failure::new("panic", p)),
+        };
+        match verdict {
+            Ok(()) => {
+                if !failed.get() {
+                    stats.borrow_mut().absorb::<P>(&case, &ctx);
+                }
+                Ok(())
+            }
+            Err(f) => {
+                if !failed.get() {
+                    failed.set(true);
+                    stats.borrow_mut().evaluations += 1;
+                }
+                Err(TestCaseError::fail(f.to_string()))
+            }
+        }
+    });
+    let fail = match res {
+        Ok(()) => None,
+        Err(TestError::Fail(reason, case)) => Some((case, reason.to_string())),
+        Err(TestError::Abort(reason)) => {
+            eprintln!(
+                "harness error: proptest aborted ({}): generator over-filtering is a harness defect",
+                reason
+            );
+            std::process::exit(2);
+        }
+    };
+    (stats.into_inner(), fail)
+}
+
+/// Run the generated part of a property on `WORKERS` threads.
 pub fn run_generated<P: Prop>(
     tier: Tier,
     seed: u64,
@@ -362,56 +425,8 @@ pub fn run_generated<P: Prop>(
             std::thread::Builder::new()
                 .stack_size(64 << 20)
                 .spawn_scoped(sc, move || {
-                    let cfg = Config {
-                        cases: per_worker,
-                        failure_persistence: None,
-                        max_shrink_iters: 2_500,
-                        max_global_rejects: 1024,
-                        ..Config::default()
-                    };
-                    let rng = TestRng::from_seed(
-                        RngAlgorithm::ChaCha,
-                        &derive_seed(seed, P::ID, w as u64),
-                    );
-                    let mut runner = TestRunner::new_with_rng(cfg, rng);
-                    let strat = P::strategy(tier);
-                    let stats = RefCell::new(Stats::default());
-                    let failed = std::cell::Cell::new(false);
-                    let res = runner.run(&strat, |case| {
-                        let mut ctx = Ctx::new(&active_kf);
-                        let r = catch(|| P::check(&case, &mut ctx));
-                        let verdict: CheckResult = match r {
-                            Ok(v) => v,
-                            Err(p) => Err(Failure::new("panic", p)),
-                        };
-                        match verdict {
-                            Ok(()) => {
-                                if !failed.get() {
-                                    stats.borrow_mut().absorb::<P>(&case, &ctx);
-                                }
-                                Ok(())
-                            }
-                            Err(f) => {
-                                if !failed.get() {
-                                    failed.set(true);
-                                    stats.borrow_mut().evaluations += 1;
-                                }
-                                Err(TestCaseError::fail(f.to_string()))
-                            }
-                        }
-                    });
-                    let fail = match res {
-                        Ok(()) => None,
-                        Err(TestError::Fail(reason, case)) => Some((case, reason.to_string())),
-                        Err(TestError::Abort(reason)) => {
-                            eprintln!(
-                                "harness error: proptest aborted ({}): generator over-filtering is a harness defect",
-                                reason
-                            );
-                            std::process::exit(2);
-                        }
-                    };
-                    results.lock().unwrap().push((w, stats.into_inner(), fail));
+                    let (stats, fail) = run_worker::<P>(tier, seed, w, per_worker, false, &active_kf);
+                    results.lock().unwrap().push((w, stats, fail));
                 })
                 .expect("spawn worker");
         }
@@ -426,6 +441,24 @@ pub fn run_generated<P: Prop>(
             if let Some((case, reason)) = f {
                 fail = Some(FailInfo { worker: w, case, reason });
             }
+        }
+    }
+    // phase 2: shrink the failure of the lowest failing worker (same seed => same failing case)
+    if let Some(fi) = &mut fail {
+        let w = fi.worker;
+        let active = active_kf.clone();
+        let shrunk = std::thread::scope(|sc| {
+            std::thread::Builder::new()
+                .stack_size(64 << 20)
+                .spawn_scoped(sc, move || run_worker::<P>(tier, seed, w, per_worker, true, &active).1)
+                .expect("spawn shrink worker")
+                .join()
+                .ok()
+                .flatten()
+        });
+        if let Some((case, reason)) = shrunk {
+            fi.case = case;
+            fi.reason = reason;
         }
     }
     (all, fail)
